@@ -71,6 +71,55 @@ class Check:
         self.ok("ANCHOR", "anchor:%s" % role, str(found), site, nontrivial=False)
         return True
 
+    def only(self, substrings):
+        """A view of this check that keeps just the obligations whose key contains one of `substrings`
+        (for a property that rests on part of another property's rule set); anchors that fail are kept,
+        floors and everything else of the borrowed module (explanation, samples, extra) is dropped."""
+        outer = self
+
+        class _View:
+            def __init__(self):
+                self.explanation = ""
+                self.trusted = []
+                self.assumptions = []
+                self.not_decided = []
+                self.extra = {}
+                self.analysed = {}
+                self.samples = []
+                self.prop, self.tier, self.seed = outer.prop, outer.tier, outer.seed
+
+            def _keep(self, key):
+                return any(x in key for x in substrings)
+
+            def ok(self, rule, oid, detail="", site="", nontrivial=True):
+                if self._keep(oid):
+                    outer.ok(rule, oid, detail, site, nontrivial)
+
+            def fail(self, rule, key, msg, site="", detail=""):
+                if self._keep(key) or rule == "ANCHOR":
+                    outer.fail(rule, key, msg, site, detail)
+
+            def require(self, cond, rule, key, ok_detail, fail_msg, site=""):
+                if self._keep(key):
+                    return outer.require(cond, rule, key, ok_detail, fail_msg, site)
+                return cond
+
+            def floor(self, rule, what, count, minimum):
+                return None
+
+            def anchor(self, role, found, site=""):
+                if not found:
+                    outer.fail("ANCHOR", "anchor:%s" % role, "anchor for role '%s' not found or not unique" % role)
+                    return False
+                return True
+
+            def sample(self, s_):
+                return None
+
+            def only(self, subs):
+                return outer.only(subs)
+        return _View()
+
     def sample(self, s):
         if len(self.samples) < 40:
             self.samples.append(s)
